@@ -890,6 +890,14 @@ def _north_angle(sc, wcs):
     return math.atan2(yn - y0, xn - x0)
 
 
+def _north_scale(sc, wcs):
+    """arcsec per pixel along the local north of the position's OWN frame (astropy offsets only)."""
+    import astropy.units as u
+    x0, y0 = (float(v) for v in wcs.world_to_pixel(sc))
+    xn, yn = (float(v) for v in wcs.world_to_pixel(sc.directional_offset_by(0 * u.deg, 1 * u.arcsec)))
+    return 1.0 / math.hypot(xn - x0, yn - y0)
+
+
 def frame_facts(d, fresh, back, wcs, wd, path='root'):
     """sky -> pixel -> sky compared FRAME-INDEPENDENTLY, per simple component: the largest distance IN THE IMAGE (pixels)
     between astropy's image of an original position and of the returned one (both transformed towards the WCS frame, the
@@ -900,7 +908,7 @@ def frame_facts(d, fresh, back, wcs, wd, path='root'):
     if d['kind'] == 'compound':
         return (frame_facts(d['a'], fresh.region1, back.region1, wcs, wd, path + '.a')
                 + frame_facts(d['b'], fresh.region2, back.region2, wcs, wd, path + '.b'))
-    fact = {'path': path, 'foreign': is_foreign(d.get('frame'), wd), 'sep': None, 'dangle': None, 'n': [0, 0]}
+    fact = {'path': path, 'foreign': is_foreign(d.get('frame'), wd), 'sep': None, 'dangle': None, 'n': [0, 0], 'scale_ratio': None}
     if type(fresh).__name__ != type(back).__name__:
         return [fact]
     pa, pb = sky_objs(fresh), sky_objs(back)
@@ -912,6 +920,9 @@ def frame_facts(d, fresh, back, wcs, wd, path='root'):
             xb, yb = (float(v) for v in wcs.world_to_pixel(b))
             worst = max(worst, math.hypot(xa - xb, ya - yb))
         fact['sep'] = worst
+    if fact['foreign'] and hasattr(fresh, 'center') and hasattr(back, 'center'):
+        # pixel scale along the WCS frame's north at the returned centre / along the own frame's north at the original centre
+        fact['scale_ratio'] = _north_scale(back.center, wcs) / _north_scale(fresh.center, wcs)
     if hasattr(fresh, 'angle') and hasattr(back, 'angle'):
         exp = float(fresh.angle.to_value(u.rad)) + _north_angle(fresh.center, wcs) - _north_angle(back.center, wcs)
         dlt = float(back.angle.to_value(u.rad)) - exp
@@ -1168,9 +1179,9 @@ class Check(PropertyCheck):
     validated_only = ['that a real astropy WCS is invertible to within the tolerance and that the helper returns the same (scale, angle) at the '
                       'round-tripped centre: observed on every case of the run, not a theorem',
                       'astropy unit conversion (Angle/Quantity arithmetic in to_sky/to_pixel), SkyCoord frames, numpy cos/sin: parameters of the model',
-                      'a sky region given in a frame other than the WCS frame comes back expressed in the WCS frame: it is compared through the image (same pixel image to 1e-6, positions '
-                      'mapped to the same pixels, angle = angle + north(own frame) - north(WCS frame)); its angular SIZES may differ by up to ~1e-3 where the projection is '
-                      'not conformal, because the scale is measured along the north of the frame the centre is given in (reported as an observation, not a theorem)']
+                      'a sky region given in a frame other than the WCS frame comes back expressed in the WCS frame: positions, angle and pixel image are compared through the image '
+                      '(same pixel image to 1e-6, positions mapped to the same pixels, angle = angle + north(own frame) - north(WCS frame)): observed, outside the theorems '
+                      '(toSky(toPix q) = q fails for such q); its angular SIZES are compared at 1e-6 like every other size (open finding F204 where they differ)']
 
     # -------------------------------------------------------------- generation
     def generate(self, rng, tier):
@@ -1340,6 +1351,21 @@ class Check(PropertyCheck):
                 bad('vertex_count_changed', f'{pth}: {f["n"][0]} -> {f["n"][1]}')
             elif f['sep'] is not None and not f['sep'] <= tol:
                 bad('position_changed', f'{pth} (frame {leaf.get("frame")} on a {case["wcs"]["frame"]} WCS): a position moved by {f["sep"]!r} pixels in the image')
+            bleaf = back
+            for step in pth.split('.')[1:]:
+                bleaf = bleaf.get(step, {}) if isinstance(bleaf, dict) else {}
+            for key in SIZE_KEYS.get(leaf['kind'], []):
+                if key not in bleaf:
+                    continue
+                if rel_close(leaf[key], bleaf[key], Fraction(1, 10 ** 6)):
+                    continue
+                ratio = float(bleaf[key]) / float(leaf[key])
+                if f['scale_ratio'] is not None and abs(ratio - f['scale_ratio']) <= 1e-6 * max(1.0, f['scale_ratio']):
+                    bad('foreign_frame_size_changed', f'{pth}.{key} (centre in {leaf.get("frame")}, WCS frame {case["wcs"]["frame"]}): '
+                        f'{float(leaf[key])!r} arcsec -> {float(bleaf[key])!r} arcsec (x {ratio:.9f}) = the ratio of the pixel scales along the '
+                        f'WCS frame\'s north and along the region frame\'s north at that position ({f["scale_ratio"]:.9f})', f204_class=True)
+                else:
+                    bad('size_changed', f'{pth}.{key}: {float(leaf[key])!r} -> {float(bleaf[key])!r} (foreign frame; scale ratio {f["scale_ratio"]})')
             if f['dangle'] is not None and not abs(f['dangle']) <= 1e-6:
                 bad('angle_changed', f'{pth} (frame {leaf.get("frame")}): returned angle deviates by {f["dangle"]!r} rad from angle + north(own frame) - north(WCS frame)')
         if foreign:
@@ -1506,6 +1532,8 @@ class Check(PropertyCheck):
         """F2 (fixed in 23f75f4; matters only if the entry is ever re-opened): a compound node whose non-empty dictionaries
         came back EMPTY, or the membership change that is exactly explained by the lost include flag.  With the entry
         `fixed`, a regression is a VIOLATION (corpus/C06/f2_compound_meta.json replays the original witness first)."""
+        if finding.get('id') == 'F204':
+            return violation.get('kind') == 'foreign_frame_size_changed' and violation.get('f204_class') is True
         if finding.get('id') == 'F203':
             return violation.get('kind') == 'sky_contains_scalar_for_array' and violation.get('f203_class') is True
         return (finding.get('id') == 'F2' and violation.get('f2_class') is True
